@@ -1,6 +1,9 @@
 package workceptor
 
 import (
+	"github.com/ansible/receptor/pkg/netceptor"
+	"crypto/tls"
+	"context"
 	"os"
 
 	"github.com/ansible/receptor/internal/verifapi"
@@ -162,4 +165,42 @@ func Verif_C19_two_units() {
 	}
 	_, z := p3["Secret_z"]
 	verifapi.Assert("each-unit-redacted-by-its-own-names", verifapi.All(!z, p3["other"] == "p3", p2["plain"] == "p2"))
+}
+
+// Verif_C19_only_a_real_profile_counts_as_tls: the TLS profile table is the real node's (netceptor's
+// SetClientTLSConfig / GetClientTLSConfig), not a stand-in. A remote submission with a secret parameter
+// names as its TLS client profile: the stored profile, nothing, an unknown name, or a name that is only
+// white space. It is accepted only if what it names IS a
+// stored profile, exactly; otherwise it is refused before anything is stored or sent.
+func Verif_C19_only_a_real_profile_counts_as_tls() {
+	dir := verifapi.TempDir()
+	wk := verifWorkceptor(dir)
+	verifapi.Redirect("(*crypto/tls.Config).Clone", func(c *tls.Config) *tls.Config {
+		if c == nil {
+			return nil
+		}
+		return &tls.Config{RootCAs: c.RootCAs, InsecureSkipVerify: c.InsecureSkipVerify, ServerName: c.ServerName, VerifyPeerCertificate: c.VerifyPeerCertificate}
+	})
+	real := netceptor.New(context.Background(), "A")
+	verifapi.Assert("profile-stored", real.SetClientTLSConfig("tls", &tls.Config{}, nil) == nil)
+	wk.nc.real = real
+	name := []string{"tls", "", " ", "\t", "nosuch"}[verifapi.Choose(5)]
+	submit := map[string]interface{}{"command": "work", "subcommand": "submit", "node": "R", "worktype": "echo", "secret_x": "v"}
+	if name != "" || verifapi.Bool() {
+		submit["tlsclient"] = name
+	}
+	verifapi.FixRandom("unit0091")
+	opsBefore := verifapi.FSOps()
+	_, err := wk.verifCommand(verifNewCFO("unix"), submit)
+	verifapi.Quiesce()
+	verifapi.Cover("submission-answered")
+	if name == "tls" {
+		verifapi.Assert("stored-profile-accepted", err == nil)
+	} else {
+		verifapi.Assert("secret-without-a-stored-tls-profile-refused", err != nil)
+		verifapi.Assert("refused-before-anything-is-stored-or-sent", verifapi.All(len(wk.w.activeUnits) == 0, verifapi.FSOps() == opsBefore, *wk.nc.dials == 0))
+	}
+	real.Shutdown()
+	wk.cancel()
+	verifapi.Quiesce()
 }
